@@ -800,8 +800,6 @@ impl Overlay {
 
         let _write_guard = nomt.access_lock.write();
 
-        let marker = self.mark_committed();
-
         {
             let mut shared = nomt.shared.lock();
             if shared.root != self.prev_root() {
@@ -812,7 +810,8 @@ impl Overlay {
                 );
             }
             shared.root = root;
-            shared.last_commit_marker = Some(marker);
+            // Only an overlay that passed the check counts as committed.
+            shared.last_commit_marker = Some(self.mark_committed());
         }
 
         if let Some(rollback_delta) = rollback_delta {
@@ -858,8 +857,6 @@ impl Overlay {
             return Ok(Some(self));
         }
 
-        let marker = self.mark_committed();
-
         {
             let mut shared = nomt.shared.lock();
             if shared.root != self.prev_root() {
@@ -870,7 +867,8 @@ impl Overlay {
                 );
             }
             shared.root = root;
-            shared.last_commit_marker = Some(marker);
+            // Only an overlay that passed the check counts as committed.
+            shared.last_commit_marker = Some(self.mark_committed());
         }
 
         if let Some(rollback_delta) = rollback_delta {
